@@ -312,3 +312,81 @@ class LengthScaleHandle(Contract):
 
     def raises(self, a, exc, case):
         return [(f"the tracker never raises (a failing analysis raised {exc.cls_name})", False)]
+
+
+# ---------------------------------------------------------------------------------------------------
+class _JsonFile:
+    """Path(filename).open("w") as a context manager; records what json.dump writes into it"""
+
+    def __init__(self, g, name):
+        self.g, self.name = g, name
+
+    def sym_getattr(self, run, attr):
+        if attr == "open":
+            def op(run2, a, k):
+                self.g["opened"].append((self.name, list(a), dict(k)))
+                return self
+            return SNative(op, "Path.open")
+        if attr == "__enter__":
+            return SNative(lambda run2, a, k: self, "enter")
+        if attr == "__exit__":
+            return SNative(lambda run2, a, k: False, "exit")
+        return _MISSING
+
+
+@models.external("pathlib.Path")
+def _path(engine, run, a, k):
+    g = run.ghost.get("lsfin")
+    if g is None:
+        raise Undecided("Path(...) outside the LengthScaleTracker.finalize contract")
+    return _JsonFile(g, a[0] if a else None)
+
+
+@models.external("json.dump")
+def _json_dump(engine, run, a, k):
+    g = run.ghost.get("lsfin")
+    if g is None:
+        raise Undecided("json.dump outside the LengthScaleTracker.finalize contract")
+    g["dumps"].append((list(a), dict(k)))
+    run.trust("ASSUMED (json.dump with default options): writes lists of floats incl. NaN (as the token NaN, read back as nan by json.load) and raises nothing for them")
+    return None
+
+
+@register
+class LengthScaleFinalize(Contract):
+    """LengthScaleTracker.finalize: dumps exactly the two recorded lists, never raises - also when not-a-number entries were recorded"""
+    key = f"{TRK}:LengthScaleTracker.finalize"
+    modular = False
+
+    def cases(self):
+        return [dict(filename="given"), dict(filename="none")]
+
+    def setup(self, run, case):
+        from .collections import sym_real_list
+        me = SObj(source.get_class(TRK, "LengthScaleTracker"))
+        times, ls = sym_real_list(run, "times"), sym_real_list(run, "scales")
+        fn = "scales.json" if case["filename"] == "given" else None
+        me.fields.update(times=times, length_scales=ls, filename=fn, _logger=SOpaque("logger"), verbose=False)
+        run.ghost["lsfin"] = dict(opened=[], dumps=[])
+        self.ctx = (run, me, times, ls, fn)
+        return dict(self=me, info=SOpaque("info"))
+
+    def post(self, a, ret, case):
+        run, me, times, ls, fn = self.ctx
+        g = run.ghost["lsfin"]
+        if fn is None:
+            return [("without a filename nothing is written", not g["opened"] and not g["dumps"])]
+        out = [("the given file is opened once, for writing", len(g["opened"]) == 1 and g["opened"][0][0] == fn and g["opened"][0][1] == ["w"])]
+        ok = len(g["dumps"]) == 1
+        out.append(("the records are written by one json.dump", ok))
+        if ok:
+            args, kw = g["dumps"][0]
+            data = args[0] if args else None
+            out.append(("what is written are exactly the recorded times and length scales (the tracker's own lists, nothing dropped or converted)",
+                        isinstance(data, dict) and set(data) == {"times", "length_scales"} and data["times"] is times and data["length_scales"] is ls))
+            out.append((f"json.dump is called with its default options (got {sorted(kw)}): not-a-number entries, recorded for frames whose analysis failed, "
+                        "must be writable - the tracker never raises", not kw and len(args) == 2))
+        return out
+
+    def raises(self, a, exc, case):
+        return [(f"finalize never raises (raised {exc.cls_name})", False)]
